@@ -24,35 +24,54 @@ BATTERY = [
 ]
 
 
-def real_cli(args, script, use_out):
-    """run the real command line in a subprocess inside a scratch directory"""
+def real_cli(args, data, outk):
+    """run the real command line in a subprocess inside a scratch directory; returns
+    (returncode, stdout, {file name: bytes} after the run)"""
     with tempfile.TemporaryDirectory(prefix="olverif-cli-") as d:
-        with open(os.path.join(d, "in.py"), "w", encoding="utf8") as f:
-            f.write(script)
-        cmd = [sys.executable, "-W", "ignore", "-m", "oneliner", "in.py"] + list(args) + (["-o", "out.txt"] if use_out else [])
-        env = dict(os.environ, PYTHONPATH=common.REPO)
-        p = subprocess.run(cmd, capture_output=True, text=True, cwd=d, env=env, timeout=60)
-        out_exists = os.path.exists(os.path.join(d, "out.txt"))
-        out_text = open(os.path.join(d, "out.txt"), encoding="utf8").read() if out_exists else None
-        return p.returncode, p.stdout, out_exists, out_text
+        with open(os.path.join(d, "in.py"), "wb") as f:
+            f.write(data)
+        with open(os.path.join(d, "old.txt"), "wb") as f:
+            f.write(c16k.OLD_CONTENT)
+        out = c16k.out_name(outk)
+        cmd = [sys.executable, "-W", "ignore", "-m", "oneliner", "in.py"] + list(args) + (["-o", out] if out else [])
+        env = dict(os.environ, PYTHONPATH=common.REPO, PYTHONIOENCODING="utf-8")
+        p = subprocess.run(cmd, capture_output=True, cwd=d, env=env, timeout=60)
+        files = {}
+        for n in os.listdir(d):
+            fp = os.path.join(d, n)
+            if os.path.isfile(fp):
+                with open(fp, "rb") as f:
+                    files[n] = f.read()
+        return p.returncode, p.stdout.decode("utf-8", "replace"), files
 
 
 def cli_agrees_with_spec(c_args, use_out, dep, si):
-    """the property's literal observable, on the real CLI"""
+    """the property's literal observable, on the real CLI (use_out: bool or index into OUT_KINDS)"""
+    outk = int(use_out)
     args = []
     for a in c_args:
         args += ["-C", a]
     if dep:
         args += ["--unparser", dep]
-    rc, stdout, out_exists, out_text = real_cli(args, c16k.SCRIPTS[si], use_out)
+    data = c16k.file_bytes(si)
+    rc, stdout, files = real_cli(args, data, outk)
+    before = {"in.py": data, "old.txt": c16k.OLD_CONTENT}
+    target = os.path.normpath(c16k.out_name(outk)) if outk else None
     t = c16k.spec(c_args, dep)
     if t is None:
-        return rc != 0 and not out_exists and stdout.strip() == ""
+        return rc != 0 and files == before and stdout.strip() == ""
     if rc != 0:
         return False
     want = c16k.REF[(si, t["unparser"], t["expr_wrapper"], t["if_style"])]
-    got = out_text if use_out else (stdout[:-1] if stdout.endswith("\n") else stdout)
-    return got is not None and c10k.alpha(got) == want and (use_out or not out_exists) and (not use_out or stdout == "")
+    untouched = all(files.get(n) == v for n, v in before.items() if n != target) and all(n in before or n == target for n in files)
+    if outk:
+        try:
+            got = files[target].decode("utf-8")
+        except (KeyError, UnicodeDecodeError):
+            return False
+        return untouched and stdout == "" and c10k.alpha(got) == want
+    got = stdout[:-1] if stdout.endswith("\n") else stdout
+    return untouched and c10k.alpha(got) == want
 
 
 def validate_stubs(rep):
@@ -67,6 +86,17 @@ def validate_stubs(rep):
             n += 1
             if inproc != real:
                 rep.harness_error("stubbed run and real CLI disagree on %r (out=%s): stub says %s, real CLI says %s" % (args, use_out, inproc, real))
+    # I/O dimension: every cell of the k_io kernel, stub against the real CLI
+    import concurrent.futures
+
+    cells = [(sc, outk, ai) for sc in range(len(c16k.SCRIPTS) + len(c16k.IO_FILES)) for outk in range(len(c16k.OUT_KINDS)) for ai in range(len(c16k.IO_ARGS))]
+    with concurrent.futures.ThreadPoolExecutor(max_workers=16) as ex:
+        reals = list(ex.map(lambda c: cli_agrees_with_spec(list(c16k.IO_ARGS[c[2]]), c[1], None, c[0]), cells))
+    for (sc, outk, ai), real in zip(cells, reals):
+        inproc = c16k.check(list(c16k.IO_ARGS[ai]), outk, None, sc)
+        n += 1
+        if inproc != real:
+            rep.harness_error("stubbed run and real CLI disagree on file %d, output kind %d, args %r: stub says %s, real CLI says %s" % (sc, outk, c16k.IO_ARGS[ai], inproc, real))
     return n
 
 
@@ -95,6 +125,11 @@ def run(tier):
                 "    return c16k.k_pool(ni, si, vi, use_out, dep, sc)",
             )
         )
+    # I/O dimension: input file kinds (ASCII, non-ASCII, BOM, CRLF, coding line) x output situations
+    # (stdout, new file, existing longer file, the input file itself, under another spelling)
+    nfiles = len(c16k.SCRIPTS) + len(c16k.IO_FILES)
+    for sc in range(nfiles):
+        conds.append(chrun.Condition("C16:io:file=%d" % sc, [("sc", "int"), ("outk", "int"), ("ai", "int")], "sc == %d and 0 <= outk < %d and 0 <= ai < %d" % (sc, len(c16k.OUT_KINDS), len(c16k.IO_ARGS)), "    return c16k.k_io(sc, outk, ai)"))
     for n1 in range(4):
         conds.append(
             chrun.Condition(
@@ -126,17 +161,17 @@ def run(tier):
                 rep.note("counterexample of %s did not reproduce on the real CLI: %r" % (cid, rec))
                 inconclusive.append(cid)
                 continue
-            desc = "C16:args=%r" % (rec["c_args"],)
+            desc = "C16:args=%r" % (rec["c_args"],) + ("" if isinstance(rec["use_out"], bool) else ":out=%d:file=%d" % (rec["use_out"], rec["si"]))
             if known.match(desc, None, None, "cli-diff"):
                 continue
-            rec.update({"property": "C16", "kind": "c16", "descriptor": desc, "divergence": "cli-diff", "what": "python -m oneliner in.py %s%s%s violates the CLI specification" % (" ".join("-C %r" % a for a in rec["c_args"]), " --unparser %s" % rec["dep"] if rec["dep"] else "", " -o out.txt" if rec["use_out"] else "")})
+            rec.update({"property": "C16", "kind": "c16", "descriptor": desc, "divergence": "cli-diff", "what": "python -m oneliner in.py %s%s%s violates the CLI specification" % (" ".join("-C %r" % a for a in rec["c_args"]), " --unparser %s" % rec["dep"] if rec["dep"] else "", (" -o %s" % c16k.out_name(int(rec["use_out"]))) if rec["use_out"] else "") + ("" if rec["si"] < len(c16k.SCRIPTS) else " [input file kind %d: %s]" % (rec["si"], ["non-ASCII", "UTF-8 BOM", "CRLF, no trailing newline", "latin-1 coding line", "larger than one I/O buffer"][rec["si"] - len(c16k.SCRIPTS)]))})
             rep.violation(rec)
         else:
             inconclusive.append(cid)
     for e in known.entries:
         rep.known("%s: %s" % (e["id"], e["what"]))
     cov = rep.coverage
-    cov["explanation"] = "E1 on the real oneliner/__main__.py executed in-process with stubs for parse_args/open/print: free symbolic -C arguments (every string of <= %d characters; 'expr_wrapper=' + every value of <= 4 characters; every name of <= 3 characters + '=list') and selector slices over pools derived from the real options object (names x separators x values x {-o, stdout} x deprecated --unparser x script; pairs of -C options); reference: a CLI specification written without str.split; output compared (alpha-normalised) with the library call" % free_len
+    cov["explanation"] = "E1 on the real oneliner/__main__.py executed in-process with stubs for parse_args/open/print: free symbolic -C arguments (every string of <= %d characters; 'expr_wrapper=' + every value of <= 4 characters; every name of <= 3 characters + '=list') and selector slices over pools derived from the real options object (names x separators x values x {-o, stdout} x deprecated --unparser x script; pairs of -C options; input file kinds x output situations incl. -o naming the input file or an existing longer file); reference: a CLI specification written without str.split; output compared (alpha-normalised) with the library call" % free_len
     cov["obligations"] = len(conds)
     cov["discharged"] = discharged
     cov["inconclusive"] = inconclusive
@@ -148,7 +183,7 @@ def run(tier):
     cov["distinct_nontrivial"] = discharged
     cov["samples"] = rows[:5]
     cov["functions_encoded"] = ["oneliner/__main__.py (module body)", "oneliner.config.Configs / Cfg.__set__ (option validation)", "oneliner.convert_code_string (called concretely through a realising wrapper)"]
-    rep.assumptions += ["stubs: argparse.ArgumentParser.parse_args (returns the prepared namespace), open (in-memory FS recording modes), print (recording), oneliner.convert_code_string (realises the option values and calls the real function untraced)", "stub fidelity validated on %d command lines against the real CLI in subprocesses; every counterexample is replayed on the real CLI" % nval, "argparse's own tokenisation of the command line is outside the claim"]
+    rep.assumptions += ["stubs: argparse.ArgumentParser.parse_args (returns the prepared namespace), open and tokenize.open (in-memory FS holding bytes, with the truncate/append/in-place semantics of the open modes, recording every open), print (recording), oneliner.convert_code_string (realises the option values and calls the real function untraced)", "stub fidelity validated on %d command lines against the real CLI in subprocesses; every counterexample is replayed on the real CLI" % nval, "argparse's own tokenisation of the command line is outside the claim"]
     return rep.finish()
 
 
@@ -165,6 +200,8 @@ def concretise(cid, args):
     if cid.startswith("C16:pool:"):
         a = P["names"][args["ni"]] + P["seps"][args["si"]] + P["values"][args["vi"]]
         return {"c_args": [a], "use_out": bool(args["use_out"]), "dep": [None, "ast.unparse", "oneliner"][args["dep"]], "si": args["sc"]}
+    if cid.startswith("C16:io:"):
+        return {"c_args": list(c16k.IO_ARGS[args["ai"]]), "use_out": int(args["outk"]), "dep": None, "si": int(args["sc"])}
     if cid.startswith("C16:two:"):
         names = c16k.OPTION_NAMES + ["x"]
         return {"c_args": [names[args["n1"]] + "=" + P["values"][args["v1"]], names[args["n2"]] + "=" + P["values"][args["v2"]]], "use_out": bool(args["use_out"]), "dep": None, "si": 1}
